@@ -56,3 +56,11 @@ Example C09_nonvacuous :
               ar_element := L "O"; ar_charge := L "1-"; ar_model := 2 |} in
   row_ok a = true /\ format_line a = L "ATOM  99999  O5'APSU B -12C   -123.4569999.999   0.000  1.00123.45           O1-".
 Proof. vm_compute. split; reflexivity. Qed.
+
+(* the record layout of every written file: `render` is, by definition, for every maximal run of atoms with one model number
+   MODEL n, then for every maximal run of one chain id inside it the atom lines followed by ONE TER record built from the
+   run's last atom, then ENDMDL; and END closes the file.  So MODEL/ENDMDL surround every model and a TER follows every chain. *)
+From RV Require Import Proofs.C09Layout.
+Theorem C09_record_layout : forall l, write_pdb l = render l.
+Proof. exact (write_pdb_layout eq_refl). Qed.
+Print Assumptions C09_record_layout.
